@@ -97,7 +97,7 @@ def standin_env_random(tier, seed):
     rsv = reserved()
     sizes = [0, 3, 10] if tier != 'thorough' else list(range(0, 11)) * 3
     bound = ('1 fixed environment (empty values, http_proxy, Token/TOKEN/token with different values, digits/underscores, leading _ and digit) + %d random environments of %s variables (names over [A-Za-z0-9_] of 1..20 chars incl. leading digit/underscore, lower case, reserved words; values of 0..20 pieces of Unicode, quotes, blanks, `=`, newlines, '
-             'control characters, 60%% with an embedded distinctive token), each: every variable read in strict and --no-strict mode, 4 unset names (near misses of set names + random) in both modes, '
+             'control characters, 60%% with an embedded distinctive token), each: every variable read in strict and --no-strict mode (all in one tuple literal, and again one statement per variable rotating through plain let / function body / module body / map callback), 4 unset names (near misses of set names + random; same four program shapes) in both modes, '
              'tuple fields named env; + 4 `let env` programs') % (len(sizes), '0..10' if tier == 'thorough' else '/'.join(map(str, sizes)))
     work = tempfile.mkdtemp(prefix='verif_c18_')
     n = 0
@@ -123,8 +123,31 @@ def standin_env_random(tier, seed):
             fld_exp = {'a': 1, 'b': 1, 'c': 'field', 'd': 'lit', 'e': 's'}
             misses = unset_names(rnd, env)
             files = {'hit.ucg': hit, 'fld.ucg': fld}
+            # the same reads in other program shapes: one statement per variable; inside a function body, a module body, a map callback
+            def wrapped(i, s_):
+                k_ = i % 4
+                if k_ == 0:
+                    return 'let v%d = %s;\n' % (i, s_)
+                if k_ == 1:
+                    return 'let f%d = func(x) => %s;\nlet v%d = f%d(1);\n' % (i, s_, i, i)
+                if k_ == 2:
+                    return 'let m%d = module {} => (r) { let r = %s; };\nlet v%d = m%d{};\n' % (i, s_, i, i)
+                return 'let l%d = map(func(x) => %s, [1]);\nlet v%d = l%d.0;\n' % (i, s_, i, i)
+            rot = rnd.randint(0, 3)
+            hit2 = ''.join(wrapped(i + rot, s_) for i, s_ in enumerate(sels))
+            hit2 += 'out json {%s};\n' % ', '.join(['n = 1'] + ['v%d = v%d' % (i, i + rot) for i in range(len(sels))])
+            files['hit2.ucg'] = hit2
             for j, u in enumerate(misses):
-                files['miss%d.ucg' % j] = 'let x = %s;\nout json {v = x};\n' % sel(u, rnd, rsv)
+                su = sel(u, rnd, rsv)
+                shape = (j + ei) % 4
+                if shape == 0:
+                    files['miss%d.ucg' % j] = 'let x = %s;\nout json {v = x};\n' % su
+                elif shape == 1:
+                    files['miss%d.ucg' % j] = 'let f = func(a) => %s;\nlet x = f(1);\nout json {v = x};\n' % su
+                elif shape == 2:
+                    files['miss%d.ucg' % j] = 'let m = module {} => (r) { let r = %s; };\nlet x = m{};\nout json {v = x};\n' % su
+                else:
+                    files['miss%d.ucg' % j] = 'let l = map(func(a) => %s, [1]);\nlet x = l.0;\nout json {v = x};\n' % su
             for f, src in files.items():
                 open(os.path.join(work, f), 'w', encoding='utf-8').write(src)
             envs = 'environment (exactly): ' + (show_env(env) or '(empty)')
@@ -157,6 +180,12 @@ def standin_env_random(tier, seed):
                     return viol(bound, n, '%s mode: %s evaluates to %r, the variable holds %r' % (
                         mode, bad[0][1] if bad else 'the program', got.get('v%d' % names.index(bad[0][0])) if bad and isinstance(got, dict) else got, env[bad[0][0]] if bad else exp),
                         source=hit, env=env, expected=exp, observed=got if got is not None else out[-400:], how=how)
+                got = js('hit2.ucg')
+                n += max(1, len(names))
+                if got != exp:
+                    return viol(bound, n, '%s mode: the same variables read one statement at a time / inside a function, a module, a map callback: %s' % (
+                        mode, ('artifact %r, expected %r' % (got, exp)) if got is not None else 'the program does not build: ' + ' '.join(([x for x in out.split('Building ') if x.startswith('hit2.ucg')] or [out])[0][-400:].split())),
+                        source=hit2, env=env, expected=exp, observed=got if got is not None else out[-600:], how=how)
                 # fields named env
                 got = js('fld.ucg')
                 n += 1
